@@ -99,8 +99,9 @@ class UGLA(Sampler):
             self._priorloc = self.prior.location
 
         # Initial Laplace approx
+        # (the prior block of the operator M is scaled by sqrt(1/scale), so the prior block of the right-hand side is too)
         self._L2 = Lk_fun(self.initial_point)
-        self._L2mu = self._L2@self._priorloc
+        self._L2mu = np.sqrt(1/self.prior.scale)*(self._L2@self._priorloc)
         self._b_tild = np.hstack([self._L1@self.data, self._L2mu]) 
         
         # Least squares form
@@ -120,7 +121,7 @@ class UGLA(Sampler):
     def step(self):
         # Update Laplace approximation
         self._L2 = self.Lk_fun(self.current_point)
-        self._L2mu = self._L2@self._priorloc
+        self._L2mu = np.sqrt(1/self.prior.scale)*(self._L2@self._priorloc)
         self._b_tild = np.hstack([self._L1@self.data, self._L2mu]) 
     
         # Sample from approximate posterior
